@@ -319,7 +319,7 @@ _VARIANT_TESTS = {"std::option::Option::is_some": ("Some", "None"), "std::option
                   "std::result::Result::is_ok": ("Ok", "Err"), "std::result::Result::is_err": ("Err", "Ok")}
 
 
-def variant_facts(body, X, bb):
+def variant_facts(body, X, bb, _depth=0):
     """[(expr, variants tuple, Cond)]: on every path entry->bb the value `expr` is one of `variants`; from `match`/`if let`
     (a switch on the discriminant) and from `if e.is_some()` / `is_none()` / `is_ok()` / `is_err()` alike"""
     from mir import strip
@@ -335,6 +335,16 @@ def variant_facts(body, X, bb):
     while i < len(out) and len(out) < 400:
         e, truth, c = out[i]
         i += 1
+        # the value is V and every way of making it is an aggregate: it was made by the (single) V(..) aggregate, so
+        # whatever holds where that aggregate is built holds here (e.g. `x.map_err(f)?`: Ok(..) is built on x's Ok arm)
+        al = e[1] if e[0] == "phi" else (e,)
+        if _depth < 3 and isinstance(truth, tuple) and all(a[0] == "agg" and a[2] for a in al):
+            sel = [a for a in al if a[2] in truth]
+            if len(sel) == 1 and len(sel[0]) > 4 and isinstance(sel[0][4], tuple) and sel[0][4][0] == body.cdef and isinstance(sel[0][4][1], int) \
+                    and 0 <= sel[0][4][1] < len(body.blocks) and sel[0][4][1] != bb:
+                for f in variant_facts(body, X, sel[0][4][1], _depth + 1):
+                    if f not in out:
+                        out.append(f)
         for a in (e[1] if e[0] == "phi" else (e,)):
             if a[0] != "call" or not a[2]:
                 continue
